@@ -4,6 +4,7 @@ from .common import *
 from vsym.core import s_ite, s_min, s_max, s_implies
 
 PROPERTY = 'C05'
+PYTHON_O = ['step/read-from-any-state', 'unblock_1014/validation']      # obligations that are also explored with the modules compiled as under python -O
 ASSUMPTIONS = [
     'file object = RopeFile (io.BytesIO semantics)',
     'file content is opaque; the two trailer bytes of each block are read through the peek table (arbitrary byte values)',
@@ -61,7 +62,8 @@ def step(flmax, nblocks, nmax):
         core.FUEL.set(nblocks + 4)
         m, FL, k, d, F, P, total, f, u = _state(flmax, nblocks)
         n = sym_int('n', 1, nmax)
-        rp = {'kind': 'reads', 'args': {'FL': ev(FL), 'reads': [ev(d), ev(n), 7, None]}}
+        def rp():
+            return {'kind': 'reads', 'args': {'FL': ev(FL), 'reads': [ev(d), ev(n), 7, None], 'data': concretize(F.rope(), ev)}}
         core.set_fallback(rp, 'C05/concretised')
         try:
             out = u.read(n)
@@ -76,7 +78,7 @@ def step(flmax, nblocks, nmax):
         k2 = (pos + 1013) // 1014
         fk2 = fetched(FL, k2, nblocks)
         req_eq(u.buffer, P.cut(end, fk2) if not same_int(end, fk2) else b'', 'buffer is not payload[d+n:fetched]', key='C05/state', replay=rp)
-        return {'sample': {'FL': ev(FL), 'k': ev(k), 'd': ev(d), 'n': ev(n), 'returned': ev(rlen(out))}, 'replay': rp}
+        return {'sample': {'FL': ev(FL), 'k': ev(k), 'd': ev(d), 'n': ev(n), 'returned': ev(rlen(out))}, 'replay': rp()}
     return h
 
 
@@ -84,7 +86,8 @@ def readall(flmax, nblocks):
     def h():
         core.FUEL.set(nblocks + 4)
         m, FL, k, d, F, P, total, f, u = _state(flmax, nblocks)
-        rp = {'kind': 'reads', 'args': {'FL': ev(FL), 'reads': [ev(d), None, 5, None]}}
+        def rp():
+            return {'kind': 'reads', 'args': {'FL': ev(FL), 'reads': [ev(d), None, 5, None], 'data': concretize(F.rope(), ev)}}
         core.set_fallback(rp, 'C05/concretised')
         try:
             out = u.read()
@@ -96,7 +99,7 @@ def readall(flmax, nblocks):
         require(s_eq(rlen(again), 0), 'a read after read() returned data again', key='C05/readall-again', replay=rp)
         again2 = u.read()
         require(s_eq(rlen(again2), 0), 'a second read() returned data again', key='C05/readall-again', replay=rp)
-        return {'sample': {'FL': ev(FL), 'k': ev(k), 'd': ev(d), 'returned': ev(rlen(out))}, 'replay': rp}
+        return {'sample': {'FL': ev(FL), 'k': ev(k), 'd': ev(d), 'returned': ev(rlen(out))}, 'replay': rp()}
     return h
 
 
